@@ -58,11 +58,24 @@ pub enum Mutation {
     ChangeValue(u8),
     ChangeStatus,
     ChangeBody,
+    /// one value of a multi-valued header other than its first is changed / dropped / two are swapped / one is added
+    ChangeLaterValue(u8),
+    DropLaterValue(u8),
+    SwapValues(u8),
+    AddValue(u8),
 }
 #[derive(Debug, Clone, PartialEq, Eq, Hash, Serialize, Deserialize)]
 pub enum Case {
     History(Vec<Action>),
-    ResponseEq { headers: Vec<(String, String)>, body: Vec<u8>, rotate: u8, mutation: Mutation },
+    ResponseEq {
+        headers: Vec<(String, String)>,
+        body: Vec<u8>,
+        rotate: u8,
+        mutation: Mutation,
+        /// further headers carrying several values under one name (`set-cookie`, `link`, ...)
+        #[serde(default)]
+        multi: Vec<(String, Vec<String>)>,
+    },
     /// a response the API hands to the app is serialized (it implements `Serialize`: an app may put
     /// it into its view model or persist it): the bytes must not depend on hash seeds
     ResponseSer { headers: Vec<(String, String)>, body: Vec<u8>, rotate: u8 },
@@ -379,11 +392,21 @@ fn describe_difference(a: &[(Vec<u8>, Vec<u8>)], b: &[(Vec<u8>, Vec<u8>)]) -> (S
 }
 
 fn build_response(status: u16, headers: &[(String, String)], body: &[u8]) -> crux_http::Response<Vec<u8>> {
+    build_response_multi(status, headers, &[], body)
+}
+
+fn build_response_multi(status: u16, headers: &[(String, String)], multi: &[(String, Vec<String>)], body: &[u8]) -> crux_http::Response<Vec<u8>> {
     let mut b = crux_http::testing::ResponseBuilder::with_status(crux_http::http::StatusCode::try_from(status).unwrap());
     for (n, v) in headers {
         b = b.header(n.as_str(), v.as_str());
     }
-    b.body(body.to_vec()).build()
+    let mut r = b.body(body.to_vec()).build();
+    for (n, vs) in multi {
+        for v in vs {
+            r.append_header(n.as_str(), v.as_str());
+        }
+    }
+    r
 }
 
 pub fn judge(c: &Case) -> Result<(), (String, String)> {
@@ -433,10 +456,13 @@ pub fn judge(c: &Case) -> Result<(), (String, String)> {
             }
             Ok(())
         }
-        Case::ResponseEq { headers, body, rotate, mutation } => {
+        Case::ResponseEq { headers, body, rotate, mutation, multi } => {
             // distinct names only: the builder replaces
             let mut seen = std::collections::BTreeSet::new();
             let headers: Vec<(String, String)> = headers.iter().filter(|(n, _)| seen.insert(n.to_ascii_lowercase())).cloned().collect();
+            let multi: Vec<(String, Vec<String>)> = multi.iter().filter(|(n, _)| seen.insert(n.to_ascii_lowercase())).cloned().collect();
+            let mut multi2 = multi.clone();
+            multi2.reverse(); // the other side meets the names in another order; the values of one name keep theirs
             let mut other = headers.clone();
             if !other.is_empty() {
                 let k = *rotate as usize % other.len();
@@ -455,7 +481,32 @@ pub fn judge(c: &Case) -> Result<(), (String, String)> {
                     other[k].1.push('x');
                     same = false;
                 }
-                Mutation::DropHeader(_) | Mutation::ChangeValue(_) | Mutation::AddHeader => {
+                Mutation::ChangeLaterValue(i) | Mutation::DropLaterValue(i) | Mutation::SwapValues(i) | Mutation::AddValue(i) if multi2.iter().any(|(_, v)| v.len() >= 2) => {
+                    let cands: Vec<usize> = (0..multi2.len()).filter(|k| multi2[*k].1.len() >= 2).collect();
+                    let vs = &mut multi2[cands[*i as usize % cands.len()]].1;
+                    let k = 1 + (*i as usize / 7) % (vs.len() - 1);
+                    match mutation {
+                        Mutation::ChangeLaterValue(_) => vs[k].push('x'),
+                        Mutation::DropLaterValue(_) => {
+                            vs.remove(k);
+                        }
+                        Mutation::SwapValues(_) => {
+                            // (only a change if the two values differ)
+                            if vs[k] == vs[k - 1] {
+                                vs[k].push('y');
+                            }
+                            vs.swap(k, k - 1);
+                            if k - 1 == 0 && vs.len() > 2 {
+                                // keep the first value in place when possible: the later values are the point
+                                vs.swap(0, 1);
+                                vs.swap(1, 2);
+                            }
+                        }
+                        _ => vs.push("added".into()),
+                    }
+                    same = multi2 == { let mut m = multi.clone(); m.reverse(); m };
+                }
+                Mutation::DropHeader(_) | Mutation::ChangeValue(_) | Mutation::AddHeader | Mutation::ChangeLaterValue(_) | Mutation::DropLaterValue(_) | Mutation::SwapValues(_) | Mutation::AddValue(_) => {
                     other.push(("x-extra-header".into(), "1".into()));
                     same = false;
                 }
@@ -470,15 +521,16 @@ pub fn judge(c: &Case) -> Result<(), (String, String)> {
             }
             // the suspected failure mode depends on hash order: rebuild both sides several times
             for _ in 0..16 {
-                let (l, r) = (build_response(200, &headers, body), build_response(status, &other, &body2));
+                let (l, r) = (build_response_multi(200, &headers, &multi, body), build_response_multi(status, &other, &multi2, &body2));
                 for (x, y) in [(&l, &r), (&r, &l)] {
                     if (x == y) != same {
                         let sig = match (same, mutation) {
                             (true, _) => "response-eq-depends-on-header-iteration-order",
                             (false, Mutation::DropHeader(_) | Mutation::AddHeader | Mutation::ChangeValue(_)) => "response-eq-ignores-header-difference",
+                            (false, Mutation::ChangeLaterValue(_) | Mutation::DropLaterValue(_) | Mutation::SwapValues(_) | Mutation::AddValue(_)) => "response-eq-ignores-later-values-of-a-header",
                             _ => "response-eq-wrong",
                         };
-                        return Err((sig.into(), format!("two responses with headers {:?} and {:?} (status {} / {}, bodies {}equal) compare {}", headers, other, 200, status, if body == &body2 { "" } else { "not " }, if same { "unequal although their contents are equal" } else { "equal although their contents differ" })));
+                        return Err((sig.into(), format!("two responses with headers {:?} + {multi:?} and {:?} + {multi2:?} (status {} / {}, bodies {}equal) compare {}", headers, other, 200, status, if body == &body2 { "" } else { "not " }, if same { "unequal although their contents are equal" } else { "equal although their contents differ" })));
                     }
                 }
             }
@@ -490,7 +542,7 @@ pub fn judge(c: &Case) -> Result<(), (String, String)> {
 pub fn strategy() -> BoxedStrategy<Case> {
     let name = prop_oneof![3 => "[a-z]{1,6}(-[a-z]{1,4})?", 1 => Just("accept".to_string()), 1 => Just("authorization".to_string()), 1 => Just("x-request-id".to_string()), 1 => Just("Content-Type".to_string())];
     let header = (name, "[!-~]{1,10}");
-    let headers = prop_oneof![1 => prop::collection::vec(header.clone(), 0..2), 4 => prop::collection::vec(header.clone(), 2..9)];
+    let headers = prop_oneof![2 => prop::collection::vec(header.clone(), 0..2), 8 => prop::collection::vec(header.clone(), 2..9), 1 => prop::collection::vec(header.clone(), 30..70)];
     let url = prop_oneof![Just("http://example.com/a".to_string()), Just("https://example.com/b?x=1".to_string()), "http://h\\.example/[a-z]{1,6}"];
     let key = "[a-zé]{0,6}";
     let step = prop_oneof![
@@ -505,10 +557,22 @@ pub fn strategy() -> BoxedStrategy<Case> {
         1 => Just(Step::Render),
     ];
     let action = prop_oneof![3 => step.prop_map(Action::Send), 2 => any::<u16>().prop_map(Action::Answer)];
-    let mutation = prop_oneof![3 => Just(Mutation::None), 1 => any::<u8>().prop_map(Mutation::DropHeader), 1 => Just(Mutation::AddHeader), 1 => any::<u8>().prop_map(Mutation::ChangeValue), 1 => Just(Mutation::ChangeStatus), 1 => Just(Mutation::ChangeBody)];
+    let mutation = prop_oneof![
+        4 => Just(Mutation::None),
+        1 => any::<u8>().prop_map(Mutation::DropHeader),
+        1 => Just(Mutation::AddHeader),
+        1 => any::<u8>().prop_map(Mutation::ChangeValue),
+        1 => Just(Mutation::ChangeStatus),
+        1 => Just(Mutation::ChangeBody),
+        1 => any::<u8>().prop_map(Mutation::ChangeLaterValue),
+        1 => any::<u8>().prop_map(Mutation::DropLaterValue),
+        1 => any::<u8>().prop_map(Mutation::SwapValues),
+        1 => any::<u8>().prop_map(Mutation::AddValue),
+    ];
+    let multi_headers = prop::collection::vec((prop_oneof![Just("set-cookie".to_string()), Just("link".to_string()), "x-m[a-c]".boxed()], prop::collection::vec("[!-~]{1,6}", 2..5)), 0..3);
     prop_oneof![
         2 => prop::collection::vec(action, 1..14).prop_map(Case::History),
-        1 => (headers.clone(), prop::collection::vec(any::<u8>(), 0..6), any::<u8>(), mutation).prop_map(|(headers, body, rotate, mutation)| Case::ResponseEq { headers, body, rotate, mutation }),
+        2 => (headers.clone(), prop::collection::vec(any::<u8>(), 0..6), any::<u8>(), mutation, multi_headers).prop_map(|(headers, body, rotate, mutation, multi)| Case::ResponseEq { headers, body, rotate, mutation, multi }),
         1 => (headers, prop::collection::vec(any::<u8>(), 0..6), any::<u8>()).prop_map(|(headers, body, rotate)| Case::ResponseSer { headers, body, rotate }),
         2 => proptest::sample::select(crate::c10::EQ_CONTAINERS.to_vec()).prop_flat_map(|c| (crate::c10::value_strategy(c), prop::collection::vec((any::<u16>(), any::<u8>()), 0..3)).prop_map(move |(value, edits)| Case::ProtoEq { container: c.to_string(), value, edits })),
     ]
@@ -519,8 +583,8 @@ fn reproducer(sig: &str) -> Option<Case> {
     let hs = |n: usize| (0..n).map(|i| (format!("x-h{i}"), format!("{i}"))).collect::<Vec<_>>();
     match sig {
         "http-header-order-depends-on-hash-seed" => Some(Case::History(vec![Action::Send(Step::Http { command_api: true, post: false, url: "http://example.com/a".into(), headers: hs(8), body: None, multi: vec![] })])),
-        "response-eq-depends-on-header-iteration-order" => Some(Case::ResponseEq { headers: hs(8), body: vec![], rotate: 3, mutation: Mutation::None }),
-        "response-eq-ignores-header-difference" => Some(Case::ResponseEq { headers: vec![], body: vec![], rotate: 0, mutation: Mutation::AddHeader }),
+        "response-eq-depends-on-header-iteration-order" => Some(Case::ResponseEq { headers: hs(8), body: vec![], rotate: 3, mutation: Mutation::None, multi: vec![] }),
+        "response-eq-ignores-header-difference" => Some(Case::ResponseEq { headers: vec![], body: vec![], rotate: 0, mutation: Mutation::AddHeader, multi: vec![] }),
         "response-serialization-depends-on-hash-seed" => Some(Case::ResponseSer { headers: hs(8), body: vec![], rotate: 3 }),
         _ => None,
     }
